@@ -324,6 +324,8 @@ int assemble_all(assemblyline_t al, const char *str, int *dest) {
   if (dest != NULL)
     *dest = 0;
   const char *tokenizer = str;
+  // a previous call failed (offset == ASM_ERROR) and no valid offset was set
+  FAIL_IF_ERR(al->offset < 0);
   unsigned int buf_pos = al->offset;
   // read str and assemble instruction line by line
   while (*tokenizer != '\0') {
